@@ -720,6 +720,7 @@ static void sweep_vec(Jit& jit, const char* kind, const std::vector<OpName<E>>& 
 }
 
 #include "lib_uniops_gp.h"
+#include "lib_uniops_life.h"
 
 // ---------------------------------------------------------------------------------------------------------------------
 int main(int argc, char** argv) {
@@ -759,6 +760,7 @@ int main(int argc, char** argv) {
     fprintf(stderr, "uniops %s: compiled=%llu variants=%llu records=%llu\n", part.c_str(), (unsigned long long)g_ncompiled, (unsigned long long)g_nvariants, (unsigned long long)g_nobs);
     return 0;
   }
+  if (mode == "life" && argc >= 5) return run_life(argv[2], argv[3], argv[4]);
   fprintf(stderr, "bad arguments\n");
   return 2;
 }
